@@ -1,6 +1,7 @@
 From Coq Require Import ZArith List String Bool.
 From Coq Require Import QArith.
 From FV Require Import Base.Ser Base.Res C19.Model C19.ModelAxisMap.
+From FV Require C19.ModelKerning.
 Import ListNotations.
 Open Scope string_scope.
 Definition cfg_of (z : Z) : cfg := if (z =? 0)%Z then cfg_ufo else cfg_misc.
@@ -13,6 +14,7 @@ Definition reg : registry := [
   ("userNameToFileName", run5 u2f);
   ("name_sequence", run4 seqf);
   ("axis_map_forward", run2 axis_map_forward);
-  ("axis_map_backward", run2 axis_map_backward)
+  ("axis_map_backward", run2 axis_map_backward);
+  ("convert_kerning", run3 ModelKerning.convert)
 ].
 Definition fv_entry := dispatch reg.
